@@ -109,9 +109,10 @@ Record hostcfg := mk_hostcfg {
 
 Definition killed (h : hostcfg) (b : beh) : bool := h_ctx h && tlt (h_done h) (b_exit b).
 
-(* death of the process *)
+(* death of the process: by itself, or [b_lat] after the kill request if that
+   comes first *)
 Definition t_end (h : hostcfg) (b : beh) : time :=
-  if killed h b then tadd (h_done h) (b_lat b) else b_exit b.
+  if killed h b then tmin (b_exit b) (tadd (h_done h) (b_lat b)) else b_exit b.
 
 (* the last write end of the pipes is closed *)
 Definition t_pipes (h : hostcfg) (b : beh) : time := tmax (t_end h b) (b_desc b).
@@ -358,8 +359,10 @@ Fixpoint spec_w_aux (remaining : Z) (lens : list Z) (rs : list wres) : bool :=
         match w_offered r with
         | None => false
         | Some k =>
-            (k <=? remaining)%Z && (k <=? len)%Z
-            && (k =? Z.min len remaining)%Z
+            (* never more than the remaining budget is handed over, and the
+               reported count is what a well-behaved W took of it *)
+            (k =? Z.min len remaining)%Z
+            && (0 <=? w_n r)%Z && (w_n r <=? k)%Z
             && negb (werr_eqb (w_err r) WLimit)
             && spec_w_aux (remaining - w_n r) lens' rs'
         end
@@ -368,8 +371,7 @@ Fixpoint spec_w_aux (remaining : Z) (lens : list Z) (rs : list wres) : bool :=
 
 Definition spec_w (i : winput) (rs : list wres) : bool :=
   spec_w_aux (wi_limit i) (map (fun x => fst (fst x)) (wi_writes i)) rs
-  && ((accepted rs <=? Z.max 0 (wi_limit i))%Z
-      || existsb (fun r => match w_offered r with Some k => (k <? w_n r)%Z || (w_n r <? 0)%Z | None => false end) rs).
+  && (accepted rs <=? Z.max 0 (wi_limit i))%Z.
 
 Definition spec_ok (i : input) (o : obs) : bool :=
   match i, o with
@@ -395,6 +397,10 @@ Definition wf (i : input) : bool :=
   match i with IProc p => wf_p p | IWriter w => wf_w w end.
 
 Record case := mk_case { c_id : N; c_in : input; c_obs : obs }.
+
+(* compact printing of writer observations: k < 0 means W was not called *)
+Definition wr (n : Z) (e : werr) (k : Z) : wres :=
+  mk_wres n e (if (k <? 0)%Z then None else Some k).
 
 Definition run (cs : list case) : list (N * N * N) :=
   run_cases c_id
